@@ -70,11 +70,21 @@ def impl(case):
         with C.scratch_dir() as d:
             m = D.load(D.write_dataset(d, case['spec']))
             try:
+                pr = case.get('prior')
+                if pr:
+                    # an EARLIER export of the store with another selection / width / factor; with `reopen` the model is
+                    # closed and opened again on the directory that now holds that store, then exports again
+                    np.random.seed(pr['rs'])
+                    m.save_spikes_subset_waveforms(max_n_spikes_per_template=pr['nst'], max_n_channels=pr['nc'],
+                                                   sample2unit=pr['factor'])
+                    if pr.get('reopen'):
+                        m.close()
+                        m = D.load(d / 'params.py')
                 np.random.seed(case.get('rs', 0))
                 m.save_spikes_subset_waveforms(max_n_spikes_per_template=case['nst'], max_n_channels=case['nc'],
                                                sample2unit=case.get('factor', 1.))
                 sw = m.spike_waveforms
-                if sw is None or np.ndim(sw.spike_ids) == 0 or len(sw.spike_ids) < 2:
+                if sw is None or np.ndim(sw.spike_ids) == 0 or len(sw.spike_ids) < 1:
                     return dict(skip=True)
                 out = m.get_waveforms(np.array(case['spike_ids'], dtype=np.int64), list(case['ch']))
                 used = sorted(int(t) for t in np.unique(m.spike_templates))
@@ -301,6 +311,10 @@ def tally(rep, case, impl_res, ans):
         rep.count('export_cache:%s' % bool(case.get('cache')))
         rep.count('destination_before_the_export:%s' % {'export': 'an earlier export', 'bytes': 'foreign bytes'}.get(case.get('prev'), 'absent'))
     rep.count('op:' + case['op'])
+    if case['op'] == 'model_store':
+        pr = case.get('prior')
+        rep.count('subset_store:%s' % ('first export' if not pr else 'exported again on the same model' if not pr.get('reopen')
+                                        else 'exported again by a model opened on the earlier store'))
     if case['op'] in ('model', 'model_store'):
         if case['op'] == 'model_store' and 'ok' in impl_res and not impl_res['ok'].get('skip'):
             st = set(impl_res['ok']['store_ids'])
@@ -466,4 +480,6 @@ def gen(tier, rng):
             yield dict(p=PID, op='model_store', spec=spec, nst=rng.randrange(1, 3), nc=rng.pick([nc, nc, 0, 1, 14]),
                        rs=rng.randrange(1000), factor=rng.pick([1., 1., 2., 0.5, 2]),
                        spike_ids=sorted(rng.sample(range(ns), rng.randrange(1, 4))),
-                       ch=rng.sample(range(nc), rng.randrange(1, nc + 1)))
+                       ch=rng.sample(range(nc), rng.randrange(1, nc + 1)),
+                       prior=rng.pick([None, None, dict(nst=rng.randrange(1, 4), nc=rng.pick([nc, 0, 2]), rs=rng.randrange(1000),
+                                                        factor=rng.pick([1., 3.]), reopen=rng.random() < .7)]))
